@@ -103,7 +103,10 @@ extern "C" void plc_main()
     else
     {
         // continues_on(just(7), sched) | then(...): the continuation runs on sched's pool, values unchanged
-        auto s = ex::then(ex::continues_on(ex::just(7), sched), [](int v) {
+        // the scheduler reaches schedule_from as an lvalue or as an rvalue (as in every `sender | continues_on(s)` pipe)
+        bool as_rvalue = verif_nondet_range(0, 1);
+        ex::thread_pool_scheduler sched_copy = sched;
+        auto s = ex::then(as_rvalue ? ex::continues_on(ex::just(7), std::move(sched_copy)) : ex::continues_on(ex::just(7), sched), [](int v) {
             verif_assert(!submitting, "continues_on: the continuation never runs inside the submitting call");
             verif_assert(running_in_pool != nullptr, "continues_on: the continuation runs inside a pool task");
             return v + 1;
